@@ -340,11 +340,16 @@ class Quantity {
     }
 
     // Modulo operator (defined only for integral rep).
-    friend constexpr Quantity operator%(Quantity a, Quantity b) { return {a.value_ % b.value_}; }
+    //
+    // Like `+` and `-` above, the result's Rep is whatever the raw operator produces (so, `int` for
+    // Reps that undergo integer promotion), rather than a narrowing conversion back to `Rep`.
+    friend constexpr auto operator%(Quantity a, Quantity b) {
+        return make_quantity<UnitT>(a.value_ % b.value_);
+    }
 
     // Unary plus and minus.
-    constexpr Quantity operator+() const { return {+value_}; }
-    constexpr Quantity operator-() const { return {-value_}; }
+    constexpr auto operator+() const { return make_quantity<UnitT>(+value_); }
+    constexpr auto operator-() const { return make_quantity<UnitT>(-value_); }
 
     // Automatic conversion to Rep for Unitless type.
     template <typename U = UnitT, typename = std::enable_if_t<IsUnitlessUnit<U>::value>>
